@@ -272,7 +272,13 @@ func runWorker(args []string) int {
 		// life (a slab handed out once, a table filled by the first caller) or that earlier runs
 		// of this worker left behind is invisible in-process; the same tape in a new process
 		// must give the same events and the same verdict
-		if rr.V == nil && raceEnabled && *freshEvery > 0 && core.Mix(0xf5e5, uint64(r))%uint64(3**freshEvery) == 0 {
+		// (focused runs - all tasks on one entry-point family - are sampled three times as often:
+		// they are where a once-per-process write is most likely to meet a concurrent reader)
+		raceFreshRate := uint64(3 * *freshEvery)
+		if rr.Ctx.C["probe_focused_runs"] > 0 {
+			raceFreshRate = uint64(*freshEvery)
+		}
+		if rr.V == nil && raceEnabled && *freshEvery > 0 && core.Mix(0xf5e5, uint64(r))%raceFreshRate == 0 {
 			// the same, under the race detector: a write that happens once per process (a table
 			// filled or a default adjusted by the first caller) races only in a young process
 			code, out, _ := execTapeProc(os.Args[0], *prop, *tier, tp.Rec, true)
